@@ -3,6 +3,7 @@ package main
 import (
 	"fmt"
 	"go/token"
+	"go/types"
 	"strings"
 
 	"golang.org/x/tools/go/ssa"
@@ -19,6 +20,31 @@ func init() {
 func checkC14(c *Ctx, r *Report) {
 	cmP := "p2p/net/connmgr"
 	cm := func(n string) string { return "(*" + cmP + ".BasicConnMgr)." + n }
+	// The value-shape rules of the two selectors follow the candidate list, the selection and the target as SSA values.
+	// When these variables are shared with function literals that write them (the passes turned into local closures
+	// called twice), they are memory cells and those rules cannot decide: they say so instead of guessing.
+	sharedState := func(f *ssa.Function) bool {
+		shared := false
+		allInstrs(f, func(in ssa.Instruction) {
+			al, ok := in.(*ssa.Alloc)
+			if !ok || !capturedAndWritten(al) {
+				return
+			}
+			t := types.TypeString(al.Type(), nil)
+			if strings.Contains(t, "peerInfos") || strings.Contains(t, "network.Conn") || (al.Comment == "target") {
+				shared = true
+			}
+		})
+		return shared
+	}
+	selFn := func(ru *Rule, k string) *ssa.Function {
+		f := ru.need(k)
+		if f != nil && sharedState(f) {
+			ru.OK(k+": selector state shared with function literals", f.Pos(), 1, "not decided: candidate list / selection / target are variables written inside function literals; the value-shape rules of this selector do not apply")
+			return nil
+		}
+		return f
+	}
 	nn := func(n string) string { return "(*" + cmP + ".cmNotifee)." + n }
 	piT := cmP + ".peerInfo"
 	isRet := func(in ssa.Instruction) bool { _, ok := in.(*ssa.Return); return ok }
@@ -215,7 +241,7 @@ func checkC14(c *Ctx, r *Report) {
 		})
 		r1.Check(okDec, cm("getConnsToClose")+": target -= len(inf.conns) for every selected peer", f.Pos(), 1, "", "selection does not stop at the low watermark", "")
 	}
-	if f := r1.need(cm("getConnsToCloseEmergency")); f != nil {
+	if f := selFn(r1, cm("getConnsToCloseEmergency")); f != nil {
 		cands := candidatesOf(r1, f)
 		selectedLen := func(v ssa.Value) bool {
 			call, ok := v.(*ssa.Call)
@@ -273,7 +299,7 @@ func checkC14(c *Ctx, r *Report) {
 	r2.onlyCallers("call getConnsToCloseEmergency", []string{cm("getConnsToCloseEmergency")}, c.FnsOfPkg(cmP), cm("ForceTrim"))
 	// selected connections are keys of a candidate's conns table
 	for _, k := range []string{cm("getConnsToClose"), cm("getConnsToCloseEmergency")} {
-		if f := r2.need(k); f != nil {
+		if f := selFn(r2, k); f != nil {
 			for _, in := range appendOfType(f, "network.Conn") {
 				el := appended(in.(*ssa.Call))
 				ok := false
@@ -296,7 +322,7 @@ func checkC14(c *Ctx, r *Report) {
 	// the selection only grows: what a selector returns contains every connection it appended (no truncation / restart
 	// of `selected` between the passes), so the unprotected pass is never discarded in favour of the all-peers pass
 	for _, k := range []string{cm("getConnsToClose"), cm("getConnsToCloseEmergency")} {
-		f := r2.need(k)
+		f := selFn(r2, k)
 		if f == nil {
 			continue
 		}
@@ -456,7 +482,7 @@ func checkC14(c *Ctx, r *Report) {
 	r6 := r.Rule("C14-R6", "E1/E7b", 4, "candidates sorted before every selection loop; comparator: ascending value once temp flags agree")
 	sortK := "(" + cmP + ".peerInfos).SortByValueAndStreams"
 	for _, k := range []string{cm("getConnsToClose"), cm("getConnsToCloseEmergency")} {
-		f := r6.need(k)
+		f := selFn(r6, k)
 		if f == nil {
 			continue
 		}
@@ -502,17 +528,48 @@ func checkC14(c *Ctx, r *Report) {
 					return ok && isParamVar(c, ia.Index, idx)
 				}
 			}
-			assume := map[ssa.Value]bool{}
-			allInstrs(less, func(in ssa.Instruction) {
-				if b, ok := in.(*ssa.BinOp); ok && (b.Op == token.NEQ || b.Op == token.EQL) {
-					fx, bx := loadOfField(b.X)
-					fy, by := loadOfField(b.Y)
-					if fx != nil && fy != nil && fieldKeyOf(bx, fx) == piT+".temp" && fieldKeyOf(by, fy) == piT+".temp" {
-						assume[b] = b.Op == token.EQL
+			// with equal temp flags — both set or both clear, however the flags are tested — the value order decides
+			sideOf := func(v ssa.Value, field string) string { // "i", "j" or ""
+				fl, base := loadOfField(v)
+				if fl == nil || fieldKeyOf(base, fl) != piT+"."+field {
+					return ""
+				}
+				ld, ok := strip(base).(*ssa.UnOp)
+				if !ok {
+					return ""
+				}
+				ia, ok := ld.X.(*ssa.IndexAddr)
+				if !ok {
+					return ""
+				}
+				for _, n := range []string{"i", "j"} {
+					if isParamVar(c, ia.Index, n) {
+						return n
 					}
 				}
-			})
-			tab, ok := orderTableAssume(less, side("i"), side("j"), 0, assume)
+				return ""
+			}
+			nTemp := 0
+			ok := true
+			tab := [3]int{}
+			for _, flag := range []bool{false, true} {
+				assume := map[ssa.Value]bool{}
+				allInstrs(less, func(in ssa.Instruction) {
+					if v, isV := in.(ssa.Value); isV && sideOf(v, "temp") != "" {
+						assume[v] = flag
+						nTemp++
+					}
+				})
+				t, okT := orderTableAssume(less, side("i"), side("j"), 0, assume)
+				ok = ok && okT
+				for o := range t {
+					tab[o] |= t[o]
+				}
+			}
+			assume := map[ssa.Value]bool{}
+			if nTemp >= 2 {
+				assume[nil] = true
+			}
 			r6.Check(ok && len(assume) >= 1 && tab[ordLT] == 2 && tab[ordGT] == 1, sortK+": with equal temp flags, less(i,j) is true for value[i] < value[j] and false for value[i] > value[j]", less.Pos(), 3, "", "higher-valued peers are trimmed before lower-valued ones", fmtTable(tab))
 			// sort.Slice is applied to the receiver
 			ok2 := false
@@ -551,7 +608,7 @@ func checkC14(c *Ctx, r *Report) {
 		ok := false
 		for _, in := range findInstrs(f, fieldWritePred(piT+".firstSeen")) {
 			st := in.(*ssa.Store)
-			if localAllocRoot(st.Addr) != nil && isNow(st.Val) {
+			if localAllocRoot(st.Addr) != nil && (isNow(st.Val) || isNow(strip(st.Val))) {
 				ok = true
 			}
 		}
@@ -560,7 +617,7 @@ func checkC14(c *Ctx, r *Report) {
 	if f := r7.need("(*" + cmP + ".segment).tagInfoFor"); f != nil {
 		ok := false
 		for _, in := range findInstrs(f, fieldWritePred(piT+".temp")) {
-			b, isC := constBool(in.(*ssa.Store).Val)
+			b, isC := constBool(strip(in.(*ssa.Store).Val)) // (through the parameter of a constructor helper extracted since)
 			ok = isC && b
 		}
 		r7.Check(ok, "(*segment).tagInfoFor: entries created by early tags are temporary", f.Pos(), 1, "", "", "")
